@@ -72,9 +72,9 @@ SEEDS2 = {
  "C10-4": ("C10-2", "a disabled @defer (if: false) nested inside an enabled one below a deferred object", "C10 quick", "missed as built; caught after adding disabled variants to the defer placements"),
  "C11-3": ("C11-1", "an inbound follower registering between the leader's Delete and its HasFollowers check is never woken", "C11 quick", "caught as built (deadlock in I1 at bound 2)"),
  "C11-4": ("C11-2", "two data sources with different ids and the same name, identical inputs in flight together", "C11 quick", "missed as built (one data source id); caught after adding scenario L8 (every data source has the same display name)"),
- "C12-3": ("C12-1", "the creator of a shared trigger leaves by cancellation of its own REQUEST context while another subscriber stays", "MISSED (author resumed)", "missed as built"),
- "C12-4": ("C12-2", "an IN filter with more than one value template", "MISSED (author resumed)", "missed as built (single-value filters only)"),
- "C13-3": ("C13-1", "synchronous entry point, a SubscriptionOnCreate hook that rewrites the input, two subscribers equal before / different after the hook", "MISSED (author resumed)", "missed as built"),
+ "C12-3": ("C12-1", "the creator of a shared trigger leaves by cancellation of its own REQUEST context while another subscriber stays", "C12 quick (and C13 quick)", "missed as built; caught after the author added scenarios S24/S25 (creator cancels the context it passed to NewContext, another subscriber stays, the upstream keeps emitting)"),
+ "C12-4": ("C12-2", "an IN filter with more than one value template", "C12 quick", "missed as built (single-value filters only); caught after the author added part E: the real SkipEvent on 531 filter trees x variable assignments x event values against a reference evaluation (this also exposed two genuine filter defects, fixed in 639fd70)"),
+ "C13-3": ("C13-1", "synchronous entry point, a SubscriptionOnCreate hook that rewrites the input, two subscribers equal before / different after the hook", "C13 quick", "missed as built; caught after the author added part E2: input-rewriting create hooks x sync/async entry points x all ordered subscriber pairs (576 cases)"),
  "C13-4": ("C13-2", "resolver shutdown while a trigger is still in start-up", "C13 quick", "caught as built"),
  "C14-3": ("C14-1", "a protected field whose only occurrences are below a list-of-lists field, pre-fetch authorization", "C14 quick", "missed as built; caught after adding the S-shapes family (this also exposed a genuine defect: fetches below a list of lists silently skipped, fixed in c9daf15)"),
  "C14-4": ("C14-2", "subscription updates rendered from the trigger event alone, pre-fetch mode", "C14 quick", "caught as built (44 fingerprints)"),
